@@ -26,7 +26,9 @@ def _plain_str(value: str | None) -> str | None:
     once as plain text would be two different terms and two lookup entries.
     """
     if isinstance(value, str) and type(value) is not str:
-        return str(value)
+        # not str(value): a subclass may override __str__ (a str-based Enum member
+        # answers with its member name)
+        return str.__str__(value)
     return value
 
 
